@@ -120,8 +120,8 @@ def run_init(mutate=None, prefixes=("C",), seeded=False):
         A_num = SymArray.input("A_num", (E, 3))
         seen = {}
 
-        def A_func(x, y, z):
-            seen.update(x=x, y=y, z=z)
+        def A_func(x, y, z, t=None):
+            seen.update(x=x, y=y, z=z, t=t)
             return A_num
         eps0 = SR(R("epsilon0"))
         I_s, I_d = SR(R("I_src")), SR(R("I_drn"))
@@ -195,6 +195,18 @@ def run_init(mutate=None, prefixes=("C",), seeded=False):
         check("C08.potential_evaluated_at_physical_edge_centres",
               z3.And(sym.eq(seen["x"].at(e_) * ell, xi_si * SR(M.centre(e_.e, 0))), sym.eq(seen["y"].at(e_) * ell, xi_si * SR(M.centre(e_.e, 1))),
                      sym.eq(seen["z"].at(e_), layer.z0)), fallback_extra=cong)
+        # the per-step re-evaluation of a time-dependent potential (real update_applied_vector_potential): same evaluation points, same
+        # scaling as at construction, at the time it is given
+        seen.clear()
+        t_now = SR(R("t_now"))
+        try:
+            A_step = s.update_applied_vector_potential(t_now)
+            check("C08.time_dependent_potential.evaluated_at_physical_edge_centres_at_the_given_time",
+                  z3.And(sym.eq(seen["x"].at(e_) * ell, xi_si * SR(M.centre(e_.e, 0))), sym.eq(seen["y"].at(e_) * ell, xi_si * SR(M.centre(e_.e, 1))),
+                         sym.eq(seen["z"].at(e_), layer.z0), sym.eq(seen["t"], t_now)), fallback_extra=cong)
+            check("C08.time_dependent_potential.scaled_like_at_construction", sym.eq(A_step.at(e_, cc) * (Bc2 * xi_si), A_num.at(e_, cc) * phi * ell), fallback_extra=cong)
+        except (KeyError, AttributeError, TypeError) as ex_:
+            check("C08.time_dependent_potential.evaluated_at_physical_edge_centres_at_the_given_time", False, note=f"{type(ex_).__name__}: {ex_}")
         check("C08.sites_in_length_units", sym.eq(s.sites.at(k_, cc) * ell, xi_si * SR(M.site(k_.e, cc.e))), fallback_extra=cong)
         # C08 / C01: requested current in solver units: 4 (I_phys / length unit) / K0
         cur = s.current_func(SR(R("t")))
